@@ -194,4 +194,18 @@ def cleanRun (H : List Handler) (enc : Enc) : SpecSt → List SrcToken → Bool
   | s, [] => !s.openEls.any (elHasEndEdits enc)
   | s, t :: ts => !implicitHere enc s t && cleanRun H enc (step H enc s t).1 ts
 
+/-- This end tag is stray or closes the innermost open element. -/
+def closesInnermost (s : SpecSt) : SrcToken → Bool
+  | .endTag name _ =>
+    match s.openEls.findIdx? (fun o => o.lname == asciiLowerBytes name) with
+    | some idx => idx == 0
+    | none => true
+  | _ => true
+
+/-- Well-nested run: every end tag is stray or closes the innermost open element, and no element with
+end-region edits is left open at the end of the input. -/
+def nestedRun (H : List Handler) (enc : Enc) : SpecSt → List SrcToken → Bool
+  | s, [] => !s.openEls.any (elHasEndEdits enc)
+  | s, t :: ts => closesInnermost s t && nestedRun H enc (step H enc s t).1 ts
+
 end LolHtml.Spec.EditDoc
